@@ -6,13 +6,16 @@ package control
 // (outbound, network type, alive, isInit) combination and (b) end to end by real
 // outbound.DialerGroup objects over real dialers through generated histories of forced / traffic /
 // transactional reports, reload inherit and floor.  The model driver c16drv answers the same op
-// lines; for (b) only the kernel bits are compared (field K[...]).
+// lines; for (b) alive flags, set sizes, kernel bits and all map slots of every outbound are compared (A, L, K, M).
 
 import (
 	"context"
+	"encoding/json"
 	"errors"
 	"fmt"
 	"io"
+	"os"
+	"path/filepath"
 	"strings"
 	"testing"
 	"time"
@@ -148,6 +151,7 @@ func c16kIdx(tok string) int {
 type c16kNode struct {
 	id     int
 	nameId int // the name InheritDialerHealthFrom matches on is "n<nameId>"; distinct objects may share it
+	linkId int // Property.Link "link<linkId>": the node's identity; same-named nodes of one group differ in it
 	d      *dialer.Dialer
 }
 type c16kGroup struct {
@@ -298,21 +302,25 @@ func TestVerifC16Kernel(t *testing.T) {
 			sb.WriteString("]")
 			return sb.String()
 		}
-		addNode := func(addr int, nameId int) *c16kNode {
-			n := &c16kNode{id: len(nodes), nameId: nameId}
+		addNodeL := func(addr int, nameId int, linkId int) *c16kNode {
+			n := &c16kNode{id: len(nodes), nameId: nameId, linkId: linkId}
 			if nameId < 0 {
 				n.nameId = n.id
+			}
+			if linkId < 0 {
+				n.linkId = n.id
 			}
 			a := ""
 			if addr != 0 {
 				a = fmt.Sprintf("addr%d", addr)
 			}
 			n.d = dialer.NewDialer(c16kNoop{}, opt, dialer.InstanceOption{DisableCheck: true},
-				&dialer.Property{Property: D.Property{Name: fmt.Sprintf("n%d", n.nameId), Address: a}})
+				&dialer.Property{Property: D.Property{Name: fmt.Sprintf("n%d", n.nameId), Address: a, Link: fmt.Sprintf("link%d", n.linkId)}})
 			nodes = append(nodes, n)
 			st.Emit(fmt.Sprintf("node %d %d |", n.id, addr), state())
 			return n
 		}
+		addNode := func(addr int, nameId int) *c16kNode { return addNodeL(addr, nameId, -1) }
 		addGroup := func(members []*c16kNode, pol string, nameId int) *c16kGroup {
 			g := &c16kGroup{id: len(groups), pol: pol, nameId: nameId, members: members}
 			// outbound ids over the whole uint8 range (the key base must not be computed in uint8)
@@ -377,11 +385,18 @@ func TestVerifC16Kernel(t *testing.T) {
 			// dialer object with the same name, member of this group only, with its own health
 			for k := range ms {
 				if r.Chance(0.3) && len(nodes) < 12 {
-					cl := addNode(0, ms[k].nameId)
+					cl := addNodeL(0, ms[k].nameId, ms[k].linkId)
 					curNodes = append(curNodes, cl)
 					ms[k] = cl
 					stats.Inc("clone")
 				}
+			}
+			// same node NAME twice in one group (two subscriptions / repeated "#name"): a twin with its own link
+			if len(ms) > 0 && pol != "random" && r.Chance(0.35) && len(nodes) < 12 {
+				tw := addNodeL(0, ms[r.Intn(len(ms))].nameId, -1)
+				curNodes = append(curNodes, tw)
+				ms = append(ms, tw)
+				stats.Inc("twin_same_name")
 			}
 			curGroups = append(curGroups, addGroup(ms, pol, -1))
 		}
@@ -394,7 +409,7 @@ func TestVerifC16Kernel(t *testing.T) {
 			newOf := map[*c16kNode]*c16kNode{}
 			for _, o := range oldNodes {
 				if r.Chance(0.9) {
-					nw := addNode(0, o.nameId) // same name (clones stay distinct objects): matched by the real method
+					nw := addNodeL(0, o.nameId, o.linkId) // same name and link (clones / twins stay distinct objects)
 					newOf[o] = nw
 					newNodes = append(newNodes, nw)
 				}
@@ -436,6 +451,18 @@ func TestVerifC16Kernel(t *testing.T) {
 				if og.pol == "random" && len(ms) > 1 {
 					ms = ms[:1]
 				}
+				// member order is not stable across generations (Go map iteration over the subscriptions)
+				for i := len(ms) - 1; i > 0; i-- {
+					k := r.Intn(i + 1)
+					ms[i], ms[k] = ms[k], ms[i]
+				}
+				dup := map[int]int{}
+				for _, x := range ms {
+					dup[x.nameId]++
+					if dup[x.nameId] == 2 {
+						stats.Inc("reload.group_with_duplicate_names")
+					}
+				}
 				newGroups = append(newGroups, addGroup(ms, og.pol, og.nameId))
 			}
 			if r.Chance(0.4) { // a group without a namesake in the old generation
@@ -451,7 +478,7 @@ func TestVerifC16Kernel(t *testing.T) {
 			mem := func(ms []*c16kNode) string {
 				var x []string
 				for _, n := range ms {
-					x = append(x, fmt.Sprintf("%d:%d", n.id, n.nameId))
+					x = append(x, fmt.Sprintf("%d:%d:%d", n.id, n.nameId, n.linkId))
 				}
 				return j(x)
 			}
@@ -494,8 +521,8 @@ func TestVerifC16Kernel(t *testing.T) {
 			for i, g := range newGroups {
 				ng[i] = g.g
 			}
-			oldCP := &ControlPlane{core: genCores[oldCore], controlPlaneGenerationState: controlPlaneGenerationState{outbounds: og}}
-			newCP := &ControlPlane{controlPlaneGenerationState: controlPlaneGenerationState{outbounds: ng}}
+			oldCP := &ControlPlane{log: log, core: genCores[oldCore], controlPlaneGenerationState: controlPlaneGenerationState{outbounds: og}}
+			newCP := &ControlPlane{log: log, core: genCores[curCore], controlPlaneGenerationState: controlPlaneGenerationState{outbounds: ng}}
 			overlap := newCP.InheritDialerHealthFrom(oldCP)
 			st.Emit("handover "+strings.Join(toks, " ")+" |", state())
 			stats.Inc("reload")
@@ -632,6 +659,11 @@ func TestVerifC16Wiring(t *testing.T) {
 	if VThorough() {
 		nScn = 160
 	}
+	cbBad, cbSeen, cbDetail := 0, 0, ""
+	defer func() {
+		b, _ := json.Marshal(map[string]any{"registration_executed": c16WiringHasRegistration, "dialers": cbSeen, "bad": cbBad, "detail": cbDetail})
+		_ = os.WriteFile(filepath.Join(VOutDir(), "c16w.json"), b, 0o644)
+	}()
 	modes := []string{"ip", "ip", "domain", "domain+", "domain++"}
 	policies := []any{"min", "min_avg10", "min_moving_avg", "random",
 		[]*config_parser.Function{{Name: "fixed", Params: []*config_parser.Param{{Val: "0"}}}}}
@@ -761,6 +793,19 @@ func TestVerifC16Wiring(t *testing.T) {
 			return sb.String()
 		}
 		st.Emit("tick 0", state())
+		// the registration loop that follows the group loop: ONE alive-transition callback per dialer,
+		// however many groups share it ("callbacks fire exactly once per actual transition")
+		if c16WiringHasRegistration {
+			for _, d := range nodes {
+				if k := d.VerifC16TransitionCallbacks(); k != 1 {
+					cbBad++
+					if cbDetail == "" {
+						cbDetail = fmt.Sprintf("scenario %d: dialer %q has %d alive-transition callbacks registered", sc, d.Property().Name, k)
+					}
+				}
+				cbSeen++
+			}
+		}
 		for ev := 0; ev < 14 && len(nodes) > 0; ev++ {
 			tok := c16kAll[r.Intn(len(c16kAll))]
 			switch r.Intn(4) {
@@ -793,4 +838,51 @@ func TestVerifC16Wiring(t *testing.T) {
 		}
 	}
 	stats.Write("c16w")
+}
+
+
+// ---- (d) directed witness of the OPEN finding c16-aborted-reload-leaves-init-bits: the live generation's
+// latency-policy group is all-dead on tcp4 (bit 0); a staged generation on the SAME map builds the namesake
+// group (NewDialerGroup's six init writes) and is then closed without ever going live (reload aborted after
+// the group loop). The bit must still describe the live generation.
+
+func TestVerifC16AbortedReload(t *testing.T) {
+	res := map[string]any{"bpf": false}
+	defer func() {
+		b, _ := json.Marshal(res)
+		_ = os.WriteFile(filepath.Join(VOutDir(), "c16g2.json"), b, 0o644)
+	}()
+	core, m := c16kCore(t)
+	if core == nil {
+		return
+	}
+	defer m.Close()
+	res["bpf"] = true
+	log := logrus.New()
+	log.SetOutput(io.Discard)
+	opt := &dialer.GlobalOption{Log: log, CheckInterval: 30 * time.Second}
+	mk := func(name string) *dialer.Dialer {
+		return dialer.NewDialer(c16kNoop{}, opt, dialer.InstanceOption{DisableCheck: true}, &dialer.Property{Property: D.Property{Name: name}})
+	}
+	tcp4 := c16kNT("t4")
+	pol := outbound.DialerSelectionPolicy{Policy: consts.DialerSelectionPolicy_MinLastLatency}
+	live := mk("a")
+	liveG := outbound.NewDialerGroup(opt, "proxy", []*dialer.Dialer{live}, []*dialer.Annotation{{}}, pol, core.outboundAliveChangeCallback(2, false))
+	live.ReportUnavailableForced(tcp4, nil)
+	key := outboundConnectivityMapKey(2, tcp4)
+	var v uint32
+	_ = m.Lookup(key, &v)
+	res["live_len"] = liveG.MustGetAliveDialerSet(tcp4).Len()
+	res["bit_before"] = v
+	staged, _ := c16kCoreOn(m)
+	stagedD := mk("a")
+	stagedG := outbound.NewDialerGroup(opt, "proxy", []*dialer.Dialer{stagedD}, []*dialer.Annotation{{}}, pol, staged.outboundAliveChangeCallback(2, false))
+	_ = stagedG.Close()
+	staged.close() // the deferred core.Close() of the failed NewControlPlane
+	_ = stagedD.Close()
+	_ = m.Lookup(key, &v)
+	res["bit_after"] = v
+	res["live_len_after"] = liveG.MustGetAliveDialerSet(tcp4).Len()
+	_ = liveG.Close()
+	_ = live.Close()
 }
